@@ -521,7 +521,12 @@ pub fn block_in(cfg: &DocCfg, ctx: &'static str, depth: u32) -> BoxedStrategy<Bl
         }
         let cfg = &qcfg;
         let inner = block_in(cfg, "quote", depth - 1);
-        opts.push((1, vec(inner, 1..4).prop_map(Blk::Quote).boxed()));
+        if cfg.on("empty_quote") {
+            // a lone '>' line: a quote that holds nothing
+            opts.push((1, prop_oneof![14 => vec(inner, 1..4), 1 => Just(vec![])].prop_map(Blk::Quote).boxed()));
+        } else {
+            opts.push((1, vec(inner, 1..4).prop_map(Blk::Quote).boxed()));
+        }
     }
     proptest::strategy::Union::new_weighted(opts).boxed()
 }
@@ -876,6 +881,9 @@ fn render_block(r: &mut R, b: &Blk, in_item: bool) -> Vec<String> {
         }
         Blk::Quote(bs) => {
             let inner = render_blocks(r, bs, 1, false);
+            if inner.is_empty() {
+                return vec![">".to_string()];
+            }
             inner
                 .into_iter()
                 .map(|l| if l.is_empty() { ">".to_string() } else { format!("> {}", l) })
